@@ -53,7 +53,7 @@ var properties = map[string]propSpec{
 	"C07": {Rules: rl{rulePairedState, ruleLeaveComplete, ruleLeaveCallers, ruleRegistry, ruleIDGenerator, ruleFramePair, ruleAnswers, ruleAtomicity}, Keep: kp{"E1", "E2", "E6", "E7", "E9", "D3", "B4", "B1", "E8"}, Sites: map[string][]string{"B": {"HandleParticipantJoin"}, "E8": {"registry:", "session:empty"}}},
 	"C08": {Rules: rl{ruleMainLineBlocking, rulePairedState, ruleDecoratorForward, rulePBNil, ruleFunnelOnce, ruleGaugePair, ruleWaitFor, rulePanicContainment, ruleClampSymmetry, ruleTaintAlloc, ruleDeferUnlock, ruleFramePair, ruleRelaySync}, Keep: kp{"A2", "G1", "E5", "G5", "G6", "F4", "G2", "G3", "G4", "F6b", "E6", "C6", "E9", "G7"}},
 	"C09": {Rules: rl{ruleGuardedBy, ruleNoEscape, ruleLockOrder, ruleLockPairing, ruleSplitCriticalSection, ruleWaitFor, ruleDeferUnlock, ruleFramePair, ruleAtomicity, ruleThreadConfinement}},
-	"C10": {Rules: rl{ruleIDGenerator, ruleStoreContracts, ruleSplitCriticalSection, ruleIDSources, ruleEntityActions, ruleRegistry, ruleAtomicity}, Keep: kp{"D3", "D4", "E8a", "D5", "E7", "E8"}, Sites: map[string][]string{"E8": {"session:empty"}}},
+	"C10": {Rules: rl{ruleGuardedBy, ruleIDGenerator, ruleStoreContracts, ruleSplitCriticalSection, ruleIDSources, ruleEntityActions, ruleRegistry, ruleAtomicity}, Keep: kp{"F1", "D3", "D4", "E8a", "D5", "E7", "E8"}, Sites: map[string][]string{"E8": {"session:empty"}, "F1": {"SequentialIDGenerator", "EntityComponentStore.idIndex", "EntityComponentStore.nameIndex", "SessionStore.sessions"}}},
 	"C11": {Rules: rl{rulePairedState, rulePBNil, ruleSnapshot, ruleAnswers, ruleOwnerGuard, ruleFramePair, ruleIDGenerator, ruleMutateRelay, ruleFlagWrap}, Keep: kp{"E9", "G1", "C11-pose", "B5", "B7", "D1", "E6", "D3", "C1", "C4c"}},
 	"C12": {Rules: rl{ruleJoinedGuard, rulePairedState, ruleStoreContracts, ruleCascade, ruleErrorDiscipline, ruleSplitCriticalSection}, Keep: kp{"J2", "E9", "S-", "D4", "E4", "ERR", "E8a"}},
 	"C13": {Rules: rl{ruleNotifyGated, ruleSenderExcluded, ruleSubscriptions, ruleLeaveComplete}, Keep: kp{"C5", "C2", "S-", "E1"}},
